@@ -592,8 +592,7 @@ def rule_ring_pairing(ctx) -> None:
     for mname, fn in sorted(ctx.prog.methods(RING).items()):
         if mname in ("__init__", "contains", "__contains__", "__len__", "tolist", "extend"):
             continue
-        lowers = [x for x in walk_no_defs(fn.node) if (isinstance(x, ast.Call) and isinstance(x.func, ast.Attribute) and x.func.attr in ("pop", "clear") and src(x.func.value) == "self._ref")
-                  or (isinstance(x, ast.AugAssign) and isinstance(x.op, ast.Sub) and any(isinstance(d.value, ast.BinOp) or True for d in []))]
+        lowers = [x for x in walk_no_defs(fn.node) if isinstance(x, ast.Call) and isinstance(x.func, ast.Attribute) and x.func.attr in ("pop", "clear") and src(x.func.value) == "self._ref"]
         # c = self._ref.get(x) ...; c -= 1 / c - 1 ...; self._ref[x] = c   (a store of a decremented count)
         dec = any(isinstance(x, ast.AugAssign) and isinstance(x.op, ast.Sub) for x in walk_no_defs(fn.node)) or any(isinstance(x, ast.BinOp) and isinstance(x.op, ast.Sub) and "_ref" in src(x) for x in walk_no_defs(fn.node))
         raises_ = any(isinstance(x, ast.Assign) and any(isinstance(t, ast.Subscript) and src(t.value) == "self._ref" for t in x.targets) and isinstance(x.value, ast.BinOp) and isinstance(x.value.op, ast.Add)
